@@ -448,22 +448,50 @@ class Design:
     else:
       b = self.blks[st[1]]
       lines = [f'    @update_ff' if b['ff'] else '    @update', f'    def blk{b["id"]}():']
+    items = []      # one list of source lines per statement of the body
     for (t, op, rhs) in b['stmts']:
       tgt = self.oexpr(t, comp)
       if op == 'for':
-        lines += self.placed([f'for {tgt} in range( 2 ):', '  pass'], (st, len(lines), tgt, op))
+        items.append(([f'for {tgt} in range( 2 ):', '  pass'], (tgt, op)))
         continue
       sym = {'at': '@=', 'ff': '<<=', 'assign': '='}[op]
       if rhs[0] == 'k': r = tconst_src(self.otype(t), rhs[1])
       elif rhs[0] == 'r': r = self.oexpr(rhs[1], comp)
       else: r = f'{tgt} + 1'
-      lines += self.placed([f'{tgt} {sym} {r}'], (st, len(lines), tgt, op))
+      items.append(([f'{tgt} {sym} {r}'], (tgt, op)))
     for r in b.get('extra_reads', []):
-      lines += self.placed([f'tmp = {self.oexpr(r, comp)}'], (st, len(lines), 'read'))
+      items.append(([f'tmp = {self.oexpr(r, comp)}'], ('read',)))
     for c in b.get('calls', []):
-      lines += self.placed([f'fn{c}()'], (st, len(lines), 'call', c))
+      items.append(([f'fn{c}()'], ('call', c)))
+    lines += self.place_body(items, st)
     if len(lines) == 2: lines.append('      pass')
     return lines
+
+  def place_body(self, items, st):
+    """statements are placed one by one (`placed`) or two neighbours share one compound statement: the same branch of an
+    if, the two branches of an if/else (inside a two-trip loop, so that each still runs once), a for body, a for body and
+    its else clause; the compound may itself be placed again"""
+    import zlib
+    ind = lambda ls, n=1: ['  ' * n + l for l in ls]
+    pair_forms = [
+      lambda x, y: ['if 1 == 1:'] + ind(x + y),
+      lambda x, y: ['for _k in range( 2 ):', '  if _k == 0:'] + ind(x, 2) + ['  else:'] + ind(y, 2),
+      lambda x, y: ['for _k in range( 1 ):'] + ind(x + y),
+      lambda x, y: ['for _k in range( 1 ):'] + ind(x) + ['else:'] + ind(y),
+      lambda x, y: ['if 1 == 0:', '  pass', 'else:'] + ind(x + y),
+      lambda x, y: ['if 2 > 1:'] + ind(x + ['if 1 == 1:'] + ind(y)),
+    ]
+    out, i = [], 0
+    while i < len(items):
+      h = zlib.crc32(repr((st, i, items[i][1], len(self.sigs), len(self.conns), len(self.blks), 'pair')).encode())
+      if i + 1 < len(items) and h % 100 < 55:
+        grp = pair_forms[(h // 100) % len(pair_forms)](items[i][0], items[i + 1][0])
+        out += self.placed(grp, (st, i, 'grp')) if (h // 1000) % 3 == 0 else ['      ' + l for l in grp]
+        i += 2
+      else:
+        out += self.placed(items[i][0], (st, i, items[i][1]))
+        i += 1
+    return out
 
   def placed(self, stmt, key):
     """syntactic placement of one statement of an update block / helper: plainly, in the body of a one-trip for loop, in the
@@ -1600,7 +1628,14 @@ def inj_op(d, rng, ff, op, shape='whole'):
     lo = rng.randint(0, typ[1] - 2); o = ('sig', sid, (), (lo, rng.randint(lo + 1, typ[1] - 1 if lo == 0 else typ[1])))
   if shape == 'field':
     o = ('sig', sid, (rng.randrange(len(STRUCTS[typ[1]])),), None)
-  _blk_write(d, rng, _writer_comp(d, o), o, ff=ff, op=op)
+  wc = _writer_comp(d, o)
+  blk = d.new_blk(wc, ff)
+  def good():
+    g_ = d.whole(_fresh(d, wc, 'wire', rng.choice([('b', 4), ('b', 8)])))
+    d.add_write(blk, g_, rng, rhs=('k', 1))
+  if rng.random() < 0.6: good()          # a correct augmented assignment precedes the offending statement
+  d.add_write(blk, o, rng, op=op, rhs=('k', rng.randrange(1 << twidth(d.otype(o)))))
+  if rng.random() < 0.25: good()
   if not ff: return 'UpdateBlockWriteError'
   return 'UpdateFFBlockWriteError' if op != 'ff' else 'UpdateFFNonTopLevelSignalError'
 
